@@ -71,6 +71,10 @@ pub open spec fn base_perm_post<F: Field>(old: &CircuitBuilder<F>, new: &Circuit
             forall|i: int| 0 <= i < 8 && out_ctl[i] ==> ((#[trigger] outs[i]) matches Some(t) ==> new.bound(t)))
 }
 
+/// cr is a builder state between a and b (the state right after the permutation row was emitted)
+pub open spec fn row_emitted<F: Field>(a: &CircuitBuilder<F>, cr: &CircuitBuilder<F>, b: &CircuitBuilder<F>) -> bool { cr.extends(a) && b.extends(cr) }
+/// the extension-mode permutation row emitted last: (its input limbs, its output limbs); a witness function like last_base_row
+pub uninterp spec fn last_ext_row<F: Field>(cb: &CircuitBuilder<F>) -> (Seq<Option<ExprId>>, Seq<Option<ExprId>>);
 /// the base-mode (D=1) permutation row emitted last: (new_start, the 16 input limbs, the committed length tag absorb_len, the 16 output limbs).
 /// A witness function: only add_poseidonN_perm_base says anything about it, so a caller can establish a fact about it only by making that call with those arguments.
 pub uninterp spec fn last_base_row<F: Field>(cb: &CircuitBuilder<F>) -> (bool, Seq<Option<ExprId>>, int, Seq<Option<ExprId>>);
@@ -85,14 +89,16 @@ impl<F: Field> CircuitBuilder<F> {
         ensures final(self).extends(old(self)),
                 perm_ops_enabled() && !call.merkle_path && call.mmcs_bit is None && call.mmcs_bit2 is None ==> r is Ok,
                 r matches Ok(p) ==> ext_perm_post(old(self), final(self), call.config.wext, call.config.rext, call.new_start, call.merkle_path,
-                                                   call.inputs@, call.out_ctl@, call.return_all_outputs, p.1@)
+                                                   call.inputs@, call.out_ctl@, call.return_all_outputs, p.1@),
+                r matches Ok(p) ==> last_ext_row(final(self)) == (call.inputs@, p.1@)
     { unimplemented!() }
     #[verifier::external_body]
     pub fn add_poseidon1_perm(&mut self, call: &Poseidon1PermCall) -> (r: Result<(NonPrimitiveOpId, Vec<Option<ExprId>>), CircuitBuilderError>)
         ensures final(self).extends(old(self)),
                 perm_ops_enabled() && !call.merkle_path && call.mmcs_bit is None && call.mmcs_bit2 is None ==> r is Ok,
                 r matches Ok(p) ==> ext_perm_post(old(self), final(self), call.config.wext, call.config.rext, call.new_start, call.merkle_path,
-                                                   call.inputs@, call.out_ctl@, call.return_all_outputs, p.1@)
+                                                   call.inputs@, call.out_ctl@, call.return_all_outputs, p.1@),
+                r matches Ok(p) ==> last_ext_row(final(self)) == (call.inputs@, p.1@)
     { unimplemented!() }
     #[verifier::external_body]
     pub fn add_poseidon2_perm_base(&mut self, call: &Poseidon2PermCallBase) -> (r: Result<(NonPrimitiveOpId, [Option<ExprId>; 16]), CircuitBuilderError>)
@@ -149,6 +155,13 @@ pub proof fn lemma_bound_extends<F: Field>(a: &CircuitBuilder<F>, b: &CircuitBui
 {
     assert forall|i: int| 0 <= i < s.len() implies b.bound(#[trigger] s[i]) by { assert(a.bound(s[i])); }
 }
+pub proof fn lemma_vals_has_ext<F: Field>(a: &CircuitBuilder<F>, b: &CircuitBuilder<F>, s: Seq<ExprId>)
+    requires b.extends(a), a.has_all(s)
+    ensures b.has_all(s), b.vals_of(s) == a.vals_of(s)
+{
+    assert forall|i: int| 0 <= i < s.len() implies b.has(#[trigger] s[i]) && b.val(s[i]) == a.val(s[i]) by { assert(a.has(s[i])); }
+    assert(b.vals_of(s) =~= a.vals_of(s));
+}
 pub proof fn lemma_limb(i: int, n: int, d: int, w: int)
     requires 0 <= i < n, d >= 1, n == w / d, w >= 0
     ensures 0 <= i * d, i * d + d <= w, (i + 1) * d == i * d + d
@@ -202,6 +215,10 @@ def ext_wrapper(u, CB, IMPL, name, call_ty):
     w.ensures('rate_outputs_pinned', 'ret matches Ok(v) ==> (old(self).all_bound(inputs@) ==> forall|i: int| 0 <= i < config.rext && i < config.wext ==> final(self).bound(#[trigger] v@[i]))')
     # C06 proper: every limb handed back to the sponge is pinned -- the capacity limbs too
     w.ensures('capacity_outputs_pinned', 'ret matches Ok(v) ==> (old(self).all_bound(inputs@) ==> forall|i: int| config.rext <= i < config.wext ==> final(self).bound(#[trigger] v@[i]))')
+    # value level (C05): the row reads exactly the caller's limbs, in order, and hands back its outputs in order
+    w.ensures('emits_one_row_over_the_callers_limbs_and_returns_its_outputs_in_order',
+              '''ret matches Ok(v) ==> last_ext_row(final(self)).0.len() == inputs@.len() && (forall|j: int| 0 <= j < inputs@.len() ==> (#[trigger] last_ext_row(final(self)).0[j]) == Some(inputs@[j]))
+                && (forall|i: int| 0 <= i < v@.len() ==> (#[trigger] last_ext_row(final(self)).1[i]) == Some(v@[i]))''')
     w.before('self.pop_scope();', '''proof {
             assert forall|j: int| 0 <= j < output_exprs@.len() implies self.has(#[trigger] output_exprs@[j]) by { assert(outputs@[j] is Some); }
             if old(self).all_bound(inputs@) {
@@ -254,14 +271,34 @@ def duplex_ext(u, F, IMPL, name, cfgname, cfgty, wrapper):
     d.ensures('shape', 'final(self).state@.len() == WIDTH && final(self).initialized')
     d.ensures('frame', '''final(circuit).extends(old(circuit)) && final(self).input_buffer == old(self).input_buffer && final(self).output_buffer == old(self).output_buffer
             && final(self).config == old(self).config && final(self).duplexed_once == old(self).duplexed_once''')
+    # ---- value level (C05): the row reads the D-packings of the state chunk by chunk, and the state becomes the coefficients of the row's outputs limb by limb
+    DIM = 'sp_dim::<EF>() as int'
+    READS = lambda cr: f"""(c00_.has_all(st00_) ==> ({{ let row = last_ext_row(&{cr}); row.0.len() == WIDTH as int / dim_ && forall|j: int| 0 <= j < row.0.len() ==> ((#[trigger] row.0[j]) matches Some(t) && {cr}.val(t) == ext_of(sv00_.subrange(j * dim_, j * dim_ + dim_))) }}))"""
+    d.ensures('one_row_over_the_packed_state_whose_output_coefficients_become_the_state', f'''({{
+            let dim_ = {DIM}; let c00_ = old(circuit); let st00_ = old(self).state@; let sv00_ = old(circuit).vals_of(old(self).state@);
+            exists|cr: CircuitBuilder<EF>| #[trigger] row_emitted(old(circuit), &cr, final(circuit)) && {READS('cr')}
+                && (forall|l: int| 0 <= l < {cfgname}.wext ==> ((#[trigger] last_ext_row(&cr).1[l]) matches Some(t) && final(circuit).has_all(final(self).state@.subrange(l * dim_, l * dim_ + dim_))
+                        && final(circuit).vals_of(final(self).state@.subrange(l * dim_, l * dim_ + dim_)) == coeffs_of(cr.val(t))))
+        }})''')
+    d.at_start(f'let ghost sv0 = circuit.vals_of(self.state@); let ghost c00 = *circuit; let ghost dim0 = {DIM};')
+    d.at_end('proof { assert(row_emitted(&c00, &cr_, circuit)); }')
     d.loop('for i in 0..num_ext_limbs', invariants=[
         ('shape', 'ext_inputs@.len() == i && num_ext_limbs == WIDTH as int / sp_dim::<EF>() as int && *self == *old(self) && self.state@.len() == WIDTH && sp_dim::<EF>() >= 1'),
         ('pinned', 'circuit.all_bound(ext_inputs@) && circuit.all_bound(self.state@) && circuit.extends(old(circuit))'),
+        ('packed', 'c00 == *old(circuit) && sv0 == c00.vals_of(old(self).state@) && dim0 == sp_dim::<EF>() && (c00.has_all(old(self).state@) ==> forall|k: int| 0 <= k < i ==> circuit.has(#[trigger] ext_inputs@[k]) && circuit.val(ext_inputs@[k]) == ext_of(sv0.subrange(k * dim0, k * dim0 + dim0)))'),
     ])
     d.before('let start = i * EF::dimension();', 'proof { lemma_limb(i as int, num_ext_limbs as int, sp_dim::<EF>() as int, WIDTH as int); }', nth=0)
     d.before('let ext = circuit', '''let ghost circ_b = *circuit; let ghost sl = self.state@.subrange(start as int, end as int);
             proof { assert forall|k: int| 0 <= k < sl.len() implies circuit.bound(#[trigger] sl[k]) by { assert(circuit.bound(self.state@[start + k])); } }''')
     d.after('ext_inputs.push(ext);', '''proof {
+                if c00.has_all(old(self).state@) {
+                    assert(circ_b.vals_of(sl) =~= sv0.subrange(start as int, end as int)) by {
+                        assert forall|k: int| 0 <= k < sl.len() implies circ_b.val(#[trigger] sl[k]) == sv0[start + k] by { assert(c00.has(old(self).state@[start + k])); }
+                    }
+                    assert forall|k: int| 0 <= k < ext_inputs@.len() implies circuit.has(#[trigger] ext_inputs@[k]) && circuit.val(ext_inputs@[k]) == ext_of(sv0.subrange(k * dim0, k * dim0 + dim0)) by {
+                        if k < i { assert(circ_b.has(ext_inputs@[k])); }
+                    }
+                }
                 lemma_bound_extends(&circ_b, circuit, self.state@);
                 assert forall|k: int| 0 <= k < ext_inputs@.len() implies circuit.bound(#[trigger] ext_inputs@[k]) by {
                     if k < i { assert(circ_b.bound(ext_inputs@[k])); }
@@ -269,14 +306,38 @@ def duplex_ext(u, F, IMPL, name, cfgname, cfgty, wrapper):
             }''')
     d.before('let ext_outputs = circuit', 'let ghost circ_p = *circuit;')
     d.before('for limb in 0..ext_outputs.len()', '''proof { lemma_bound_extends(&circ_p, circuit, self.state@); }
-        let ghost dim = sp_dim::<EF>() as int;''')
+        let ghost dim = sp_dim::<EF>() as int; let ghost cr_ = *circuit;
+        proof {
+            if c00.has_all(old(self).state@) {
+                assert forall|j: int| 0 <= j < last_ext_row(&cr_).0.len() implies ((#[trigger] last_ext_row(&cr_).0[j]) matches Some(t) && cr_.val(t) == ext_of(sv0.subrange(j * dim, j * dim + dim))) by {
+                    assert(circ_p.has(ext_inputs@[j]));
+                }
+            }
+        }''')
     d.loop('for limb in 0..ext_outputs.len()', invariants=[
         ('shape', f'ext_outputs@.len() == {cfgname}.wext && self.state@.len() == WIDTH && dim == sp_dim::<EF>() && dim >= 1 && {cfgname}.wext * dim <= WIDTH && self.initialized'),
         ('outs', 'circuit.has_all(ext_outputs@) && circuit.all_bound(ext_outputs@)'),
+        ('adopted', '''circuit.extends(&cr_) && cr_.has_all(ext_outputs@) && forall|l: int| 0 <= l < limb ==> circuit.has_all(#[trigger] self.state@.subrange(l * dim, l * dim + dim))
+                && circuit.vals_of(self.state@.subrange(l * dim, l * dim + dim)) == coeffs_of(cr_.val(ext_outputs@[l]))'''),
         ('pinned', 'circuit.all_bound(self.state@) && circuit.extends(old(circuit))'),
         ('frame', 'self.input_buffer == old(self).input_buffer && self.output_buffer == old(self).output_buffer && self.config == old(self).config && self.duplexed_once == old(self).duplexed_once'),
     ])
+    d.at_loop_end('for limb in 0..ext_outputs.len()', '''proof {
+            assert forall|l: int| 0 <= l < limb + 1 implies circuit.has_all(#[trigger] self.state@.subrange(l * dim, l * dim + dim))
+                && circuit.vals_of(self.state@.subrange(l * dim, l * dim + dim)) == coeffs_of(cr_.val(ext_outputs@[l])) by {
+                if l < limb {
+                    assert(l * dim + dim <= limb * dim) by (nonlinear_arith) requires l < limb, dim >= 1;
+                    assert(0 <= l * dim) by (nonlinear_arith) requires 0 <= l, dim >= 1;
+                    assert(self.state@.subrange(l * dim, l * dim + dim) =~= st_l0.subrange(l * dim, l * dim + dim));
+                    lemma_vals_has_ext(&circ_d, circuit, st_l0.subrange(l * dim, l * dim + dim));
+                } else {
+                    assert(self.state@.subrange(l * dim, l * dim + dim) =~= coeffs@);
+                    assert(cr_.has(ext_outputs@[l]));
+                }
+            }
+        }''')
     d.before('let coeffs = circuit', 'let ghost circ_d = *circuit; proof { assert(circuit.bound(ext_outputs@[limb as int])); }')
+    d.after('let start = limb * EF::dimension();', ' let ghost st_l0 = self.state@; let ghost circ_l = *circuit;')
     d.before('let start = limb * EF::dimension();', '''proof {
                 lemma_limb2(limb as int, ext_outputs@.len() as int, dim);
                 assert(coeffs@.len() == dim) by { assert(circuit.vals_of(coeffs@).len() == dim); }
@@ -287,14 +348,16 @@ def duplex_ext(u, F, IMPL, name, cfgname, cfgty, wrapper):
     d.loop('for i in 0..coeffs.len()', invariants=[
         ('shape', 'self.state@.len() == WIDTH && start + coeffs@.len() <= WIDTH && self.initialized'),
         ('pinned', 'circuit.all_bound(self.state@) && circuit.all_bound(coeffs@)'),
+        ('copying', 'coeffs@.len() == dim && start == limb * dim && (forall|k: int| 0 <= k < i ==> self.state@[start + k] == coeffs@[k]) && (forall|k: int| (0 <= k < start || start + dim <= k < WIDTH) ==> self.state@[k] == st_l0[k])'),
         ('frame', 'self.input_buffer == old(self).input_buffer && self.output_buffer == old(self).output_buffer && self.config == old(self).config && self.duplexed_once == old(self).duplexed_once'),
     ])
-    d.before('self.state[start + i] = coeff;', 'let ghost st_b = self.state@;')
-    d.after('self.state[start + i] = coeff;', '''proof {
+    # the store of one coefficient, whatever its index expression is (a changed index is judged by the invariants, not by a lost anchor)
+    d.rewrite_re('R12', r'self\.state\[([^\]]*)\] = coeff;', r'''let ix_e_: usize = \1; let ghost st_b = self.state@; let ghost ix_b = ix_e_ as int; self.state[ix_e_] = coeff;
+                proof {
                     assert forall|k: int| 0 <= k < self.state@.len() implies circuit.bound(#[trigger] self.state@[k]) by {
-                        if k == start + i { assert(circuit.bound(coeffs@[i as int])); } else { assert(circuit.bound(st_b[k])); }
+                        if k == ix_b { assert(circuit.bound(coeffs@[i as int])); } else { assert(circuit.bound(st_b[k])); }
                     }
-                }''')
+                }''', min_count=1)
     return d
 
 
